@@ -8,6 +8,7 @@ import (
 	"crypto/rsa"
 	"fmt"
 	"io"
+	"math/big"
 	"net/http"
 	"strings"
 	"time"
@@ -30,6 +31,15 @@ type csSpec struct {
 	// property's quantifier); "ran without a valid signature" is then counted under this
 	// observation name instead of being reported.
 	ObsOnly string `json:"observation_only,omitempty"`
+	// lenient (time families): the timestamp is no decimal integer but has a numeric meaning
+	// under a more generous reading (blanks trimmed, float / exponent / hex / underscores); when
+	// that meaning is certainly inside the tolerance the statement is silent about the request
+	// (observed under lenientObs), otherwise "ran" is judged like for any other invalid request
+	lenient    *big.Rat
+	lenientObs string
+	// style of the protected handler's answer ("" = the family's default; see crywrite_test.go)
+	style *wstyle
+	wopt  wopts
 }
 
 type csEnv struct {
@@ -46,10 +56,26 @@ type csEnv struct {
 	exec func(q csReq, p *probe) (st status, panicked string, err error)
 	born time.Time // when the case's timestamps were chosen
 	dead bool      // wall-clock margin used up: nothing more is judged in this case
+	// exactTime (time families): no distance is kept from the tolerance edges; instead the
+	// reference decides with the interval [unix second before the request, unix second after it]
+	// in which the gate read its clock and with tolLo <= tolerance <= tolHi (whole seconds);
+	// requests whose timestamp is neither certainly inside nor certainly outside are not judged
+	exactTime    bool
+	tolLo, tolHi int64
+	// noJudge != "": the statement is silent about this gate's configuration (a tolerance that
+	// overflowed time.Duration): only "no panic" is asserted, outcomes are counted under this name
+	noJudge string
+	// wr picks the writing style of the protected handler's answer (derived, does not advance c.R)
+	wr *kit.Rand
+	we *wenv
 }
 
 func newCSEnv(c *kit.Case, confIdx []int, tol time.Duration, strict bool) *csEnv {
 	e := &csEnv{c: c, configured: map[string]*rsa.PrivateKey{}, confIdx: confIdx, tol: tol, strict: strict, t: tally{}, keyPrefix: "C18/cs", born: time.Now()}
+	e.tolLo, e.tolHi = tolBounds(tol)
+	// every content-security family decides the time exactly (no verdict depends on how fast the case runs)
+	e.exactTime = true
+	e.wr = c.R.Split("handler-writing-style")
 	decs := map[string]codec.RsaDecrypter{}
 	for _, i := range confIdx {
 		e.configured[rsaKeys[i].Fingerprint] = rsaKeys[i].priv
@@ -89,6 +115,20 @@ func (q csReq) httpRequest() *http.Request {
 	return req
 }
 
+// tolBounds: whole seconds below and above a tolerance (equal for whole-second tolerances).
+func tolBounds(tol time.Duration) (lo, hi int64) {
+	lo = int64(tol / time.Second)
+	hi = lo
+	if tol%time.Second != 0 {
+		if tol > 0 {
+			hi++
+		} else {
+			lo--
+		}
+	}
+	return
+}
+
 func verifiedMethod(m string) bool { return m == "GET" || m == "POST" || m == "PUT" || m == "DELETE" }
 
 const unverifiedMethodClass = "method-not-in-GET-POST-PUT-DELETE"
@@ -107,7 +147,11 @@ func csWitness(e *csEnv, s csSpec, v csVerdict, status int, ran bool, extra stri
 	for _, i := range e.confIdx {
 		fps = append(fps, rsaKeys[i].Fingerprint)
 	}
-	return map[string]any{"configured_fingerprints": fps, "tolerance": e.tol.String(), "strict": e.strict, "spec": s,
+	bodyLen := len(s.Req.Body)
+	if bodyLen > 4200 {
+		s.Req.Body = nil // reproducible from the case seed; keeps the evidence line short
+	}
+	return map[string]any{"configured_fingerprints": fps, "tolerance": e.tol.String(), "strict": e.strict, "spec": s, "request_body_len": bodyLen,
 		"body_text": clip(string(s.Req.Body), 300), "unix_now": time.Now().Unix(),
 		"reference": map[string]any{"valid": v.valid, "reason": v.reason, "type": v.ctype, "client_key_hex": fmt.Sprintf("%x", v.key)},
 		"observed":  map[string]any{"handler_ran": ran, "status": status}, "detail": extra}
@@ -123,14 +167,27 @@ func (e *csEnv) run(s csSpec, resp []byte) (ran bool, st status) {
 	req := s.Req.httpRequest()
 	s.Req.Path, s.Req.Query = req.URL.Path, req.URL.RawQuery // THIS request's path and query
 	p := &probe{resp: resp, writes: c.R.Range(1, 3)}
+	e.chooseStyle(&s, p)
 	t0 := time.Now()
-	v := refVerifyCS(s.Req, e.configured, t0.Unix(), int64(e.tol.Seconds()))
+	var v csVerdict
+	if !e.exactTime {
+		v = refVerifyCS(s.Req, e.configured, t0.Unix(), int64(e.tol.Seconds()))
+	}
 	var pan string
 	if e.exec != nil {
 		var err error
 		st, pan, err = e.exec(s.Req, p)
+		if bad, why := p.sourceFailed(); bad {
+			c.Inconclusive("the handler's writing style could not obtain its payload (" + p.styleName() + "): " + why)
+			return p.ran(), st
+		}
 		if err != nil {
+			if p.ran() {
+				e.undelivered(s, p, err)
+				return true, status{}
+			}
 			e.t["e2e_cs_requests_not_deliverable"]++
+			c.Sample("e2e-request-not-deliverable", 2, map[string]any{"kind": s.Kind, "detail": s.Detail, "method": s.Req.Method, "client_error": err.Error()})
 			return false, status{}
 		}
 		if !p.ran() && st.code >= 500 {
@@ -141,12 +198,34 @@ func (e *csEnv) run(s csSpec, resp []byte) (ran bool, st status) {
 		rr, pn := serve(e.gate(protected(p)), req)
 		pan = pn
 		st = status{code: rr.Code, body: rr.Body.Bytes()}
+		if bad, why := p.sourceFailed(); bad {
+			c.Inconclusive("the handler's writing style could not obtain its payload (" + p.styleName() + "): " + why)
+			return p.ran(), st
+		}
 	}
-	// every generated timestamp keeps >= 60 s distance from the tolerance edges as seen at e.born
-	if time.Since(e.born) > 45*time.Second || time.Since(t0) > 30*time.Second {
+	if e.exactTime {
+		v = refVerifyCSWin(s.Req, e.configured, t0.Unix(), time.Now().Unix(), e.tolLo, e.tolHi)
+		if s.lenient != nil && !v.valid && v.reason == "timestamp-not-a-decimal-integer" && ratInside(s.lenient, t0.Unix(), time.Now().Unix(), e.tolLo) {
+			s.ObsOnly = s.lenientObs
+		}
+	} else if time.Since(e.born) > 45*time.Second || time.Since(t0) > 30*time.Second {
+		// every generated timestamp keeps >= 60 s distance from the tolerance edges as seen at e.born
 		c.Inconclusive("content-security case used up its wall-clock margin (45 s); remaining requests of the case are not judged")
 		e.dead = true
 		return false, status{}
+	}
+	if e.noJudge != "" {
+		// configuration about which the statement is silent: no panic, everything else observed
+		c.Evals(1)
+		e.t[e.noJudge+"_requests"]++
+		if p.ran() {
+			e.t[e.noJudge+"_handler_ran"]++
+		}
+		c.Sig(false, e.keyPrefix, "nojudge", e.noJudge, s.Kind, s.Detail, p.ran())
+		if pan != "" {
+			viol(c, "C18/panic/"+e.keyPrefix[4:]+"/tolerance-outside-the-range-of-time.Duration", "the content security gate panicked", csWitness(e, s, v, st.code, p.ran(), pan))
+		}
+		return p.ran(), st
 	}
 	ran = p.ran()
 	if !e.strict {
@@ -179,7 +258,19 @@ func (e *csEnv) judge(s csSpec, v csVerdict, p *probe, ran bool, st status, pan 
 	c.Evals(1)
 	e.t["cs_requests"]++
 	e.t["cs_kind_"+strings.SplitN(s.Kind, "/", 2)[0]]++
-	c.Sig(s.Kind != "base", e.keyPrefix, s.Kind, s.Detail, s.Req.Method, e.shape, ran)
+	if s.style != nil {
+		c.Sig(true, e.keyPrefix, s.Kind, s.Detail, s.Req.Method, e.shape, ran, p.styleName())
+	} else {
+		c.Sig(s.Kind != "base", e.keyPrefix, s.Kind, s.Detail, s.Req.Method, e.shape, ran)
+	}
+	if v.undecided {
+		// the timestamp sat at the edge of the tolerance while the gate read its clock
+		e.t["cs_time_requests_at_the_tolerance_edge_not_judged"]++
+		if pan != "" {
+			e.t["cs_panics_on_requests_not_required_to_pass"]++
+		}
+		return
+	}
 	if pan != "" {
 		if v.valid && s.Must {
 			viol(c, csViolKey("C18/panic/"+e.keyPrefix[4:], "valid-request", s), "content security handler panicked on a correctly signed request", csWitness(e, s, v, st.code, ran, pan))
@@ -242,6 +333,22 @@ func (e *csEnv) judge(s csSpec, v csVerdict, p *probe, ran bool, st status, pan 
 		case s.Req.UnknownLength:
 			cls = "unknown-content-length"
 		}
+		// class of the response check: the special request classes first, then how the handler wrote
+		rcls := cls
+		if p.style != nil && rcls == "" {
+			switch {
+			case p.style.DeclaresLength && len(p.resp) > 0:
+				rcls = "handler-declared-content-length"
+			case p.style.Class != "write":
+				rcls = "written-via-" + p.style.Class
+			}
+		}
+		if p.style != nil && s.Req.Method != "HEAD" {
+			e.t["cs_responses_compared_style_class_"+p.style.Class]++
+			if e.exec != nil {
+				e.t["cs_responses_compared_on_a_real_server_style_class_"+p.style.Class]++
+			}
+		}
 		bypassed := false
 		if !bytes.Equal(p.body, plain) {
 			k := cls
@@ -250,14 +357,14 @@ func (e *csEnv) judge(s csSpec, v csVerdict, p *probe, ran bool, st status, pan 
 			}
 			// for the two special classes the whole encryption layer was skipped: the plaintext
 			// response is the same failure, not reported under a second key
-			bypassed = cls != "" && bytes.Equal(p.body, s.Req.Body)
+			bypassed = (cls == unverifiedMethodClass || cls == "unknown-content-length") && bytes.Equal(p.body, s.Req.Body)
 			viol(c, e.keyPrefix+"/encrypted-body-not-decrypted/"+k, fmt.Sprintf("handler saw %d bytes %q, the client encrypted %d bytes %q",
 				len(p.body), clip(string(p.body), 80), len(plain), clip(string(plain), 80)), csWitness(e, s, v, st.code, ran, ""))
 		}
 		if bypassed {
 			e.t["cs_encryption_layer_bypassed_response_check_folded_into_body_violation"]++
 		} else if s.Req.Method != "HEAD" {
-			checkEncryptedResponse(c, e.keyPrefix, cls, v.key, p.resp, st.body, csWitness(e, s, v, st.code, ran, ""))
+			checkEncryptedResponse(c, e.keyPrefix, rcls, v.key, p.expected(), st.body, csWitness(e, s, v, st.code, ran, p.styleName()))
 		}
 	case v.ctype == "1":
 		// declared encrypted but no body: the statement's subject ("an encrypted body") is absent
